@@ -9,6 +9,6 @@ macro "unfold_steps" hs:ident : tactic => `(tactic|
     stepQuery, stepCbBegin, stepCbEnd, stepCbAbandon, stepCbPanic, stepVnew, stepWork, stepCtxSignal,
     stepCtxTimer, stepCtxWeak, stepFire, stepTimerArm, stepTimerEnd, stepTickBegin, stepTime, stepCancel,
     stepTaskPanic, stepTaskDone, stepStreamReady, stepStreamEnd, stepDeq, stepChanEnd, stepStreamEndTau,
-    retEffect, beginWait, notifyEarly, toStopping, refreshTimers] at $hs:ident)
+    retEffect, beginWait, notifyEarly, toStopping, refreshTimers, stepQuiescent] at $hs:ident)
 
 end Hannibal
